@@ -210,6 +210,63 @@ def wire_strings(rng, ctx):
 
 
 
+def reused_columns(ctx):
+    """an application that declares its ResultColumn objects ONCE (a module-level list) and returns them with every result, served
+    to clients with different results character sets - two servers in one process, or one connection across SET NAMES: every
+    client decodes the declared names, in the text and the binary protocol, whichever was served first"""
+    names = ["pr\u00e9nom", "\u00e2ge", "plain"]
+    for order in (("utf8mb4", "latin1"), ("latin1", "utf8mb4")):
+        cols = [ResultColumn(names[0], CT.VARCHAR), ResultColumn(names[1], CT.LONGLONG), ResultColumn(names[2], CT.VARCHAR)]
+        rows = [("x", 1, "y")]
+
+        made = []
+
+        class S(impl.ScriptSession):
+            async def handle_query(self, sql, attrs):
+                return rows, cols
+
+        def factory():
+            made.append(S(env, 0))
+            return made[-1]
+
+        env = impl.Env(own_sleep=False)
+        try:
+            servers = {cs: impl.make_server(env, factory) for cs in order}
+            for step, cs in enumerate(order + order[:1]):
+                for binary in (False, True):
+                    c = impl.Conn(env, servers[cs], cid=step * 2 + int(binary))
+                    env.settle(); c.take()
+                    c.feed(cl.frame(cl.handshake_response(user=b"u", charset=45), 1)); c.take()
+                    if cs != "utf8mb4":
+                        # (through the real Session the statement would be handled by the library; this application-level
+                        #  session gets it as a query, so the variable is set directly - the effect of SET NAMES)
+                        for v in ("character_set_client", "character_set_connection", "character_set_results"):
+                            made[-1].variables.set(v, cs)
+                    if binary:
+                        c.feed(cl.frame(bytes([cl.COM_STMT_PREPARE]) + b"SELECT 1", 0))
+                        sid = cl.split_raw(c.take())[0][1][1:5]
+                        c.feed(cl.frame(bytes([cl.COM_STMT_EXECUTE]) + sid + b"\x00" + (1).to_bytes(4, "little"), 0))
+                    else:
+                        c.feed(cl.frame(bytes([cl.COM_QUERY]) + b"SELECT 1", 0))
+                    ctx.evals += 1
+                    got = []
+                    for _q, p, _n in cl.reassemble(c.take()):
+                        if p[:4] == b"\x03def":
+                            pos, fields = 0, []
+                            for _f in range(6):
+                                ln = p[pos]; pos += 1
+                                fields.append(p[pos:pos + ln]); pos += ln
+                            got.append(fields[4])
+                    want = [n.encode("utf8" if cs == "utf8mb4" else "latin1") for n in names]
+                    c.eof()
+                    if got != want:
+                        return dict(kind="reused-result-columns", served_in_order=list(order + order[:1])[:step + 1], client_results_character_set=cs,
+                                    protocol="binary" if binary else "text", declared=names, received=[g.hex() for g in got], expected=[w.hex() for w in want])
+        finally:
+            env.close()
+    return None
+
+
 def run(ctx: core.Ctx):
     rng = ctx.rng
     pr = core.check_proofs(ctx, "Props/C05", headers=[HEADER])
@@ -418,6 +475,9 @@ def run(ctx: core.Ctx):
     # ---- end to end: string cells of every size class (below / at / above the 32 KiB write buffer, above 64 KiB) in both
     #      protocols, decoded by a strict reference client (consecutive sequence ids, count, definitions, rows, terminator)
     w = wire_strings(rng, ctx)
+    if w is not None:
+        witness = witness or w
+    w = reused_columns(ctx)
     if w is not None:
         witness = witness or w
 
